@@ -58,6 +58,7 @@ func faithful(r int, opt *int, m map[string]int) int {
 	}
 	return r
 }
+
 type RT3 struct{ R int }
 
 // EventTypeName on the POINTER receiver: RT3 is published and subscribed by value, so the method is not in the
